@@ -210,6 +210,9 @@ func opArith(w *World, st *Step) execResult {
 func opCmp(w *World, st *Step) execResult {
 	a := rawArgs(st)
 	f, form, b, mode, d, same := w.subst(decodeStr(a[0])), decodeStr(a[1]), decodeInt(a[2]), decodeStr(a[3]), decodeInt(a[4]), decodeInt(a[5]) == 1
+	if same && !w.Cfg.D.Numeric() && w.Cfg.D.Class != vals.CBool {
+		return execResult{openEnd: true} // 1/0 "of the operand element type" has no meaning for strings
+	}
 	r, err := binaryCall(w, "Cmp", f, form, st.Op.H, b, w.modeOpts(mode, d, same))
 	return w.finishElem("Cmp", f, r, err, mode == "safe")
 }
@@ -260,6 +263,15 @@ func opUnary(w *World, st *Step) execResult {
 	opts := w.modeOpts(mode, d, false)
 	var r tensor.Tensor
 	var err error
+	if f == "inv" && w.Cfg.D.IsInt() {
+		if els, e := ElemsOf(t); e == nil {
+			for _, x := range els {
+				if v, ok := vals.ToInt64(x); ok && v == 0 {
+					return execResult{openEnd: true} // Go's integer 1/0 has no value
+				}
+			}
+		}
+	}
 	switch f {
 	case "clamp":
 		r, err = tensor.Clamp(t, w.Cfg.Pal.Const(w.Cfg.D, lo), w.Cfg.Pal.Const(w.Cfg.D, hi), opts...)
@@ -268,7 +280,11 @@ func opUnary(w *World, st *Step) execResult {
 	default:
 		r, err = unaryFns[f](t, opts...)
 	}
-	return w.finishElem("Unary", f, asDense(r), err, mode == "safe")
+	res := w.finishElem("Unary", f, asDense(r), err, mode == "safe")
+	if mode == "incr" && !w.Cfg.D.Numeric() {
+		res.mayRefuse = true // adding into a non-numeric tensor has no meaning
+	}
+	return res
 }
 
 // ElemKind returns the elementwise kind of a case ("" if it has none).
